@@ -1514,13 +1514,13 @@ def _patch_engine():
     def sf_dget(self, node, st, m):
         a = self.pev(node.args[0], st, m)
         k = self.to_v(self.pev(node.args[1], st, m))
-        return SV("v", Select(self.hget(st, "$dval", a.t), k), self.types.get("values:" + ast.unparse(node.args[0])))
+        return SV("v", Select(self.hget(st, "$dval", self.to_v(a)), k), self.types.get("values:" + ast.unparse(node.args[0])))
     E.sf_dget = sf_dget
 
     def sf_dhas(self, node, st, m):
         a = self.pev(node.args[0], st, m)
         k = self.to_v(self.pev(node.args[1], st, m))
-        return sv_bool(L.mem(self.hget(st, "$dkeys", a.t), k))
+        return sv_bool(L.mem(self.hget(st, "$dkeys", self.to_v(a)), k))
     E.sf_dhas = sf_dhas
 
     def sf_typeis(self, node, st, m):
@@ -3030,6 +3030,12 @@ def _patch_calls():
                 # a fresh instance of a contract class whose may-be-absent attributes are all absent (e.g. threading.local())
                 cn = tgt[7:]
                 r, st2 = self.alloc_obj(st, cn, "obj")
+                if CLASSES[cn].isa == "dict":
+                    st2 = self.hset(st2, "$dkeys", r.t, L.sempty)       # a new, empty container
+                elif CLASSES[cn].isa == "list":
+                    st2 = self.hset(st2, "$seq", r.t, L.sempty)
+                elif CLASSES[cn].isa == "set":
+                    st2 = self.hset(st2, "$set", r.t, K(V, False))
                 for fname, fty in CLASSES[cn].fields.items():
                     if fty.startswith("maybe:"):
                         st2 = self.hset(st2, fname, r.t, L.sentinel("deleted_attr"))
